@@ -66,6 +66,7 @@ var c16Docs = []string{
 	`{"max_size": -1, "entries": [{"query":"a","timestamp":"2020-01-01T00:00:00Z","results_count":"many"}]}`,
 	"\x00\x01\x02",
 	`{"entries": [`,
+	"\n", "   ", " \n\t ", "\xef\xbb\xbf", "\xef\xbb\xbf{}", "\xef\xbb\xbf\n", "\r\n",
 }
 
 func genC16(rt *rapid.T) C16Case {
